@@ -25,6 +25,9 @@ RULE = ('clean level-structured schemas (must compile and load) + one injected s
         'non-trivial = every injected case')
 
 
+TEMP_RULE_NAMES = ['#_tmp', '#_', '#_1', '#_9lives', '#__', '#_T']
+
+
 # ------------------------------------------------------------------ text errors
 def inject_errors(schema, rng):
     """yield (kind, position label, mutated schema)"""
@@ -36,8 +39,9 @@ def inject_errors(schema, rng):
             m['rules'][ri]['comps'].insert(pos, ('ref', '#undefined_rule'))
             yield 'undefined-rule-reference', (ri, pos), m
             m = copy.deepcopy(schema)
-            m['rules'].append({'name': '#_tmp', 'comps': [('lit', 'a')], 'cons': [], 'signers': []})
-            m['rules'][ri]['comps'].insert(pos, ('ref', '#_tmp'))
+            tn = TEMP_RULE_NAMES[(ri + pos) % len(TEMP_RULE_NAMES)]        # every spelling that starts with "#_" is a temporary rule
+            m['rules'].append({'name': tn, 'comps': [('lit', 'a')], 'cons': [], 'signers': []})
+            m['rules'][ri]['comps'].insert(pos, ('ref', tn))
             yield 'temporary-rule-referenced', (ri, pos), m
             if not r['name'].startswith('#_'):
                 m = copy.deepcopy(schema)
@@ -87,8 +91,9 @@ def inject_errors(schema, rng):
         m['rules'][ri]['signers'] = sorted(set(r['signers']) | {'#undefined_signer'})
         yield 'undefined-signer', (ri,), m
         m = copy.deepcopy(schema)
-        m['rules'].append({'name': '#_tmpkey', 'comps': [('lit', 'L9'), ('lit', 'k')], 'cons': [], 'signers': []})
-        m['rules'][ri]['signers'] = sorted(set(r['signers']) | {'#_tmpkey'})
+        tk = TEMP_RULE_NAMES[ri % len(TEMP_RULE_NAMES)]
+        m['rules'].append({'name': tk, 'comps': [('lit', 'L9'), ('lit', 'k')], 'cons': [], 'signers': []})
+        m['rules'][ri]['signers'] = sorted(set(r['signers']) | {tk})
         yield 'temporary-signer', (ri,), m
         if not r['name'].startswith('#_'):
             m = copy.deepcopy(schema)
